@@ -291,13 +291,13 @@ def tlc_cases(ctx, module, cfg, **kw):
     return cases, r
 
 
-def tlc_trace(ctx, module, cfg, trace_path, trace_name="trace.ndjson", timeout=1800, heap="8g", dfs=True, **kw):
+def tlc_trace(ctx, module, cfg, trace_path, trace_name="trace.ndjson", timeout=1800, heap="8g", dfs=True, files=None, **kw):
     """Validate an ndjson trace recorded from the real code against Trace<M>.tla.
     Convention: the trace spec keeps a high-water mark of consumed lines in TLCGet(1) and
     prints it via POSTCONDITION failure text '@@HW <n>'.  Returns dict(accepted, hw, n, out)."""
     n = sum(1 for _ in open(trace_path))
     r = tlc(ctx, module, cfg, workers=1, coverage=False, timeout=timeout, heap=heap, dfs=dfs,
-            files={trace_path: trace_name}, expect_violation=True, **kw)
+            files=dict(files or {}, **{trace_path: trace_name}), expect_violation=True, **kw)
     hw = None
     for l in r["out"].splitlines():
         m = re.search(r"@@HW[\", ]+(\d+)", l)
